@@ -7,10 +7,15 @@ import histcheck
 import refreader
 import refwriter
 import streams_hdr
+import streams_ws
 import checks.c06 as c06
 
 ID = "C08"
-RULE = ("histories w(M0,F0) a(M1,F1)...a(Mk,Fk), k<=3 (quick) / 4 (thorough), Mi possibly empty / only directories / only empty "
+RULE = ("ws.app stream: real append sessions (SevenZipFile(BytesIO, 'a') with scripted codec stages, raw header) on bases "
+        "written by real create sessions and by earlier appends — data / directories only / empty members only / one member "
+        "/ nothing in the base, any documented chain per session +/-password — the Lean append-session model (reader model on "
+        "the base, Header.initialize()'s append branch, re-serialisation, file assembly) must predict the resulting file BYTE "
+        "FOR BYTE; hdr.r-session: Header._read vs the reader model on every such header. Exploration: histories w(M0,F0) a(M1,F1)...a(Mk,Fk), k<=3 (quick) / 4 (thorough), Mi possibly empty / only directories / only empty "
         "files, any supported chain per session, password constant, header raw/encoded/encrypted; the first session is "
         "alternatively a third-party fixture or an archive from the independent reference writer in a non-py7zr layout; "
         "after every session the member map is read by py7zr and by the reference reader and compared with the members "
@@ -32,6 +37,7 @@ def run(ctx):
     rng = ctx.rng
     ctx.lean_obligations("SevenZ.Props.C08")
     streams_hdr.run(ctx, n_write=(400 if ctx.thorough else 100), n_mut=1, writer_like=False, partial=True, empty_folders=True, fail_prefix="C08")
+    streams_ws.run_arch(ctx, n=(60 if ctx.thorough else 20), n_app=(400 if ctx.thorough else 90))
     tmp = tempfile.mkdtemp(prefix="verif_c08_")
     try:
         # bases: fixtures and reference-writer layouts, with their member list taken from the reference reader
